@@ -448,6 +448,16 @@ fn gen_cq(r: &mut Rng, out: &mut String, id: usize, thorough: bool) {
             writeln!(out, "fetch").unwrap();
         }
     }
+    // one case in six ends with events at Duration::MAX (never fetched: cancelled or dropped with the queue)
+    if r.chance(1, 6) {
+        for _ in 0..r.range(1, 3) {
+            val += 1;
+            writeln!(out, "add max {val}").unwrap();
+            if r.chance(1, 3) {
+                writeln!(out, "cancel {val}").unwrap();
+            }
+        }
+    }
     writeln!(out, "drop").unwrap();
     writeln!(out, "end").unwrap();
 }
@@ -664,12 +674,19 @@ fn exec_cq<T: Pay>(header: &str, body: &[String], out: &mut String) {
         let mut res = String::new();
         match tok.as_slice() {
             ["add", d, v] => {
+                let is_max = *d == "max";
                 let d: i128 = d.parse().unwrap_or(0);
                 let v: u64 = v.parse().unwrap_or(0);
-                let abs = (cur + d).max(0) as u64;
+                // `add max v`: the very last instant, Duration::MAX (the timestamp of the bucket lists' tail sentinel)
+                let (abs, dur) = if is_max {
+                    (Duration::MAX.as_nanos(), Duration::MAX)
+                } else {
+                    let a = (cur + d).max(0) as u64;
+                    (a as u128, Duration::from_nanos(a))
+                };
                 let payload = T::make(v);
                 created.push(trunc(v, bits));
-                match guarded(|| q.add(Duration::from_nanos(abs), payload)) {
+                match guarded(|| q.add(dur, payload)) {
                     Ok(h) => {
                         handles.push((v, Some(h)));
                         write!(res, "add {abs} {v} -> ok").unwrap();
